@@ -2,7 +2,7 @@
 """Regenerates MANIFEST.json from the table below (kept as a script so the manifest stays valid and uniform)."""
 import json, subprocess
 CHECKS = {
- "C01": ("Model-based history testing: ~150k (quick) / 4M (thorough) generated operation histories, after every step all reverse lookups, forward views and the raw index dump are compared with a brute-force computation over the store's forward references and with the reference model; a pass means no divergence on any generated prefix.",
+ "C01": ("Model-based history testing: ~600k (quick) / 6M (thorough) generated operation histories, after every step all reverse lookups, forward views, the iterator-level maps and the raw index dump are compared with a brute-force computation over the store's forward references and with the reference model; a pass means no divergence on any generated prefix.",
          "Trusted: reference model (harness/src/model.rs), observation layer, hook dump (read-only), proptest. Histories up to 25/60 ops, texts up to 24/40 codepoints.",
          "stateful property-based testing against a reference model + brute-force index oracle", "DESIGN.md §3, §5 C01"),
  "C02": ("Model-based history testing with removals boosted: for every removal the return value, the exact set of survivors (cascade), the data of non-strict survivors and a full traversal/serialisation/query of the store are compared with the reference model's documented cascade.",
